@@ -124,49 +124,39 @@ Definition ext_wf_b (k : name) (x : extension) : bool :=
 Definition regwf_b (reg : registry) : bool :=
   nodupb N.eqb (map fst reg) && forallb (fun kx => ext_wf_b (fst kx) (snd kx)) reg.
 
-(* ------------------------------------------------------------------ expressions loaded from serialised form *)
-(* no definition-backed type anywhere: what deserialisation produces *)
-Fixpoint no_ext (t : ty) : bool :=
-  let fix row (l : list ty) : bool := match l with [] => true | x :: r => no_ext x && row r end in
+(* ------------------------------------------------------------------ "at every depth" *)
+(* f holds of the expression and of every type expression inside it, at any depth: variants of sums,
+   inputs and outputs of function types, type arguments, sequence arguments, arguments of opaque and of
+   definition-backed types *)
+Fixpoint everywhere (f : ty -> bool) (t : ty) : bool :=
+  let fix row (l : list ty) : bool := match l with [] => true | x :: r => everywhere f x && row r end in
   let fix rows (l : list (list ty)) : bool := match l with [] => true | x :: r => row x && rows r end in
-  let fix args (l : list tyarg) : bool := match l with [] => true | x :: r => no_ext_arg x && args r end in
+  let fix args (l : list tyarg) : bool := match l with [] => true | x :: r => everywhere_arg f x && args r end in
+  f t &&
   match t with
   | TSum rs => rows rs
   | TFunc i o _ | TPoly _ i o _ => row i && row o
-  | TOpaque _ _ a _ => args a
-  | TExt _ _ _ => false
+  | TOpaque _ _ a _ | TExt _ a _ => args a
   | _ => true
   end
-with no_ext_arg (a : tyarg) : bool :=
-  let fix args (l : list tyarg) : bool := match l with [] => true | x :: r => no_ext_arg x && args r end in
+with everywhere_arg (f : ty -> bool) (a : tyarg) : bool :=
+  let fix args (l : list tyarg) : bool := match l with [] => true | x :: r => everywhere_arg f x && args r end in
   match a with
-  | AType t => no_ext t
+  | AType t => everywhere f t
   | ASeq l => args l
   | _ => true
   end.
 
-(* ------------------------------------------------------------------ reaching every depth *)
-(* no opaque type with a definition in the registry remains, at any depth: variants of sums, inputs and
-   outputs of function types, type arguments, sequence arguments, arguments of opaque and of
-   definition-backed types *)
-Fixpoint clean (reg : registry) (t : ty) : bool :=
-  let fix row (l : list ty) : bool := match l with [] => true | x :: r => clean reg x && row r end in
-  let fix rows (l : list (list ty)) : bool := match l with [] => true | x :: r => row x && rows r end in
-  let fix args (l : list tyarg) : bool := match l with [] => true | x :: r => clean_arg reg x && args r end in
-  match t with
-  | TSum rs => rows rs
-  | TFunc i o _ | TPoly _ i o _ => row i && row o
-  | TOpaque e id a _ => negb (resolvable_ty_b reg e id) && args a
-  | TExt _ a _ => args a
-  | _ => true
-  end
-with clean_arg (reg : registry) (a : tyarg) : bool :=
-  let fix args (l : list tyarg) : bool := match l with [] => true | x :: r => clean_arg reg x && args r end in
-  match a with
-  | AType t => clean reg t
-  | ASeq l => args l
-  | _ => true
-  end.
+(* expressions loaded from serialised form: no definition-backed type anywhere *)
+Definition not_ext (t : ty) : bool := match t with TExt _ _ _ => false | _ => true end.
+Definition no_ext : ty -> bool := everywhere not_ext.
+Definition no_ext_arg : tyarg -> bool := everywhere_arg not_ext.
+
+(* reaching every depth: no opaque type with a definition in the registry remains anywhere *)
+Definition unresolvable_here (reg : registry) (t : ty) : bool :=
+  match t with TOpaque e id _ _ => negb (resolvable_ty_b reg e id) | _ => true end.
+Definition clean (reg : registry) : ty -> bool := everywhere (unresolvable_here reg).
+Definition clean_arg (reg : registry) : tyarg -> bool := everywhere_arg (unresolvable_here reg).
 
 (* the same as an inductive: a path to a remaining resolvable opaque type *)
 Inductive Remains (reg : registry) : ty -> Prop :=
@@ -270,24 +260,13 @@ Definition rop_b (reg : registry) (o o' : op) : bool :=
    every document a conforming writer produced): explicit bound, or the join of the bounds of the type
    arguments at the definition's indices (all in range) *)
 Definition def_bound (d : typedef) (args : list tyarg) : option bound := tbound (TExt d args Generic).
-Fixpoint consistent (reg : registry) (t : ty) : bool :=
-  let fix row (l : list ty) : bool := match l with [] => true | x :: r => consistent reg x && row r end in
-  let fix rows (l : list (list ty)) : bool := match l with [] => true | x :: r => row x && rows r end in
-  let fix args (l : list tyarg) : bool := match l with [] => true | x :: r => consistent_arg reg x && args r end in
+Definition consistent_here (reg : registry) (t : ty) : bool :=
   match t with
-  | TSum rs => rows rs
-  | TFunc i o _ | TPoly _ i o _ => row i && row o
-  | TOpaque e id a b =>
-      forallb (fun d => option_eqb bound_eqb (def_bound d a) (Some b)) (defs_ty reg e id) && args a
-  | _ => true
-  end
-with consistent_arg (reg : registry) (a : tyarg) : bool :=
-  let fix args (l : list tyarg) : bool := match l with [] => true | x :: r => consistent_arg reg x && args r end in
-  match a with
-  | AType t => consistent reg t
-  | ASeq l => args l
+  | TOpaque e id a b => forallb (fun d => option_eqb bound_eqb (def_bound d a) (Some b)) (defs_ty reg e id)
   | _ => true
   end.
+Definition consistent (reg : registry) : ty -> bool := everywhere (consistent_here reg).
+Definition consistent_arg (reg : registry) : tyarg -> bool := everywhere_arg (consistent_here reg).
 Definition consistent_ft (reg : registry) (f : functype) : bool :=
   forallb (consistent reg) (ft_in f) && forallb (consistent reg) (ft_out f).
 Definition consistent_op (reg : registry) (o : op) : bool :=
